@@ -7,6 +7,7 @@ model, or the status frame in update-only mode).  An empty reply is injected at
 each step of each frame-list shape.
 """
 
+import asyncio
 from .. import env, gen, ops, tcpwork
 from ..fakes import memstream
 from ..fakes import tcp_device as td
@@ -61,6 +62,7 @@ class C16(Prop):
     async def setup(self, ctx):
         self.rig = tcpwork.Rig(ctx["shard"])
         self.dev = await self.rig.device()
+        self.dev_b = await self.rig.device()
 
     async def teardown(self, ctx):
         await self.rig.close()
@@ -127,6 +129,54 @@ class C16(Prop):
                             plans.append((a, dict(reported), plan))
                             if len(a) - int(update) < 5:
                                 acc.sig(env.sig(kind_name, subset, update, sorted(reported.items())))
+                # two thermostats controlled at the same time by two API objects of one application (asyncio.gather), the devices
+                # answering with different lags: each device gets exactly the frames of its own request
+                kind_b = (kind_no + 1 + i % 3) % 4
+                irset_b = gen.irset(r, toggle=bool(kind_b & 1), special=bool(kind_b & 2), density=1.0, long_codes=False)
+                remote_b = tcpwork.make_remote(irset_b)
+                did_b, key_b = gen.device_id(r), gen.device_key(r)
+                reported_b = {}
+                healthy_b = td.auto_responder(thermostat=reported_b, family="thermostat", rnd=r)
+                self.dev_b.responder = healthy_b
+                cl_b = await self.rig.connect(self.dev_b, 2, did_b, key_b)
+                try:
+                    for _ in range(6):
+                        new_report()
+                        reported_b.clear()
+                        reported_b.update({"temp_tenths": r.randrange(100, 400), "state": r.choice(["ON", "OFF"]), "mode": r.choice(MODES),
+                                           "target": r.randrange(16, 31), "fan": r.choice(FANS), "swing": r.choice(["ON", "OFF"]), "remote_id": irset_b["IRSetID"]})
+                        a1, a2 = request_for(r.choice([31, 16, 17, 7, r.randrange(32)]), r), request_for(r.choice([31, 16, 1, r.randrange(32)]), r)
+                        lag = {self.dev: r.randrange(0, 5), self.dev_b: r.randrange(0, 5)}
+
+                        def make_gate(dev):
+                            async def gate(conn, idx, frame):
+                                for _ in range(lag[dev]):
+                                    await asyncio.sleep(0)
+                            return gate
+
+                        self.dev.gate, self.dev_b.gate = make_gate(self.dev), make_gate(self.dev_b)
+                        base["n"] = len(cl.conn.frames)
+                        inject["step"] = None
+                        n1, n2 = len(cl.conn.sessions), len(cl_b.conn.sessions)
+                        w1, w2 = {"reported": dict(reported), "irset": irset}, {"reported": dict(reported_b), "irset": irset_b}
+                        p1, p2 = ops.breeze_plan(a1, reported, irset), ops.breeze_plan(a2, reported_b, irset_b)
+                        rec1, rec2 = await asyncio.gather(cl.run("control_breeze", a1, remote), cl_b.run("control_breeze", a2, remote_b))
+                        self.dev.gate = self.dev_b.gate = None
+                        acc.ev(2)
+                        acc.count("concurrent_control_calls", 2)
+                        kn_b = f"{'toggle' if kind_b & 1 else 'plain'}-{'separate' if kind_b & 2 else 'joint'}"
+                        self._judge(acc, rec1, p1, a1, w1, did, key, cl.conn.sessions[n1:], ts, kind_name + " (one of two concurrent calls)")
+                        self._judge(acc, rec2, p2, a2, w2, did_b, key_b, cl_b.conn.sessions[n2:], ts, kn_b + " (one of two concurrent calls)")
+                        # what each device received is what its own client wrote
+                        for c_, rec_ in ((cl, rec1), (cl_b, rec2)):
+                            await td.settle(c_.conn, sum(len(w) for w in c_.spy.writes))
+                            got_frames = c_.conn.frames[-len(rec_.writes):] if rec_.writes else []
+                            if [bytes(f) for f in got_frames] != [bytes(w) for w in rec_.writes]:
+                                acc.violation("device-received-foreign-frames", f"two concurrent control calls: device {c_.device.ip} received frames its own client did not write",
+                                              {"args": [a1, a2]})
+                finally:
+                    self.dev.gate = self.dev_b.gate = None
+                    await cl_b.close()
                 # fault injection: an empty reply at each step of each frame-list shape seen on this remote
                 seen_shapes = set()
                 for a, rep, plan in plans:
